@@ -81,3 +81,22 @@ Theorem C11_select_without_condition : forall d o plan proj out,
     out = map (fun row => map (nth_raw row) idxs) (s_rows s).
 Proof. exact run_select_all. Qed.
 Print Assumptions C11_select_without_condition.
+
+(* date operands: on a :date column a comparison with a date literal is the comparison
+   of the two instants (the stored text read by tsdb.cast, C08), never a regex match;
+   together with C11_parse_print (which ranges over date literals as well) and
+   C08_date_spellings this is the date clause of the grammar *)
+Theorem C11_date_comparison : forall o cols row op q i f s d z,
+  sel_index cols q = Some i -> nth_error cols i = Some f -> tf_type (snd f) = TDate ->
+  nth_raw row i = Some s -> s <> [] -> TsdbDate.parse_datetime s = TsdbDate.DSome d ->
+  eval o cols row (RCmp op q (LDate z)) = cmp_holds op (dt_cmp d z).
+Proof. exact date_comparison. Qed.
+Print Assumptions C11_date_comparison.
+
+(* a stored text that is not a date reads as an empty field: no comparison matches it *)
+Theorem C11_date_unreadable : forall o cols row op q i f s v,
+  sel_index cols q = Some i -> nth_error cols i = Some f -> tf_type (snd f) = TDate ->
+  nth_raw row i = Some s -> TsdbDate.parse_datetime s = TsdbDate.DNone ->
+  eval o cols row (RCmp op q v) = Some (match op with ONre => true | _ => false end).
+Proof. exact date_unreadable. Qed.
+Print Assumptions C11_date_unreadable.
